@@ -59,6 +59,8 @@ func main() {
 		res = runProxy(a)
 	case "disc":
 		res = runDisc(a)
+	case "explore":
+		res = runExplore(a)
 	default:
 		fmt.Fprintln(os.Stderr, "unknown engine", a.engine)
 		os.Exit(2)
